@@ -62,7 +62,7 @@ def tree_outputs(forest, X2d, method, target):
     return outs[0]
 
 
-def observe(entry, labels, seed, n_train=14, n_test=6, refit=False, level=0.0):
+def observe(entry, labels, seed, n_train=14, n_test=6, refit=False, level=0.0, rare=False):
     warnings.filterwarnings("ignore")
     import joblib
     from sktime.utils.data_processing import from_nested_to_3d_numpy
@@ -88,6 +88,11 @@ def observe(entry, labels, seed, n_train=14, n_test=6, refit=False, level=0.0):
     if isinstance(labels[0], str):
         ytr, yte = np.array(list(ytr), dtype=object), np.array(list(yte), dtype=object)
     sorted_labels = sorted(set(labels))
+    if rare:
+        # the class that sorts first has a single training instance: members trained on a subsample may never see it
+        first = [i for i, l in enumerate(ytr) if l == sorted_labels[0]]
+        keep = sorted([i for i in range(len(ytr)) if i not in first[1:]])
+        Xtr, ytr = Xtr.iloc[keep].reset_index(drop=True), ytr[keep]
     rank = {l: i + 1 for i, l in enumerate(sorted_labels)}
     try:
         with joblib.parallel_backend("threading"):
@@ -138,6 +143,17 @@ def observe(entry, labels, seed, n_train=14, n_test=6, refit=False, level=0.0):
                 mem.append([[[1, 1] if rank.get(v if not isinstance(v, np.generic) else v.item(), 0) == k + 1 else [0, 1]
                              for k in range(len(sorted_labels))] for v in votes])
             o["members"] = mem
+        elif name == "ContractableBOSS":
+            # every member votes with its weight for the class it predicts; the shares are taken of the total weight,
+            # in the columns of the ENSEMBLE's classes (also for a member that has not seen every class)
+            want = np.zeros((len(yte), len(clf.classes_)))
+            for w_, member in zip(clf.weights, clf.classifiers):
+                for i_, v in enumerate(member.predict(Xte)):
+                    want[i_, list(clf.classes_).index(v)] += w_
+            want = want / float(np.sum(clf.weights))
+            if not np.allclose(want, proba, rtol=1e-9, atol=1e-12):
+                raise AssertionError("WeightedVoteShares: ContractableBOSS reports %s, its members' weighted votes give %s"
+                                     % (proba.tolist()[:3], want.tolist()[:3]))
         elif name == "ColumnEnsembleClassifier":
             mem = []
             for (nm, est, cols) in clf.estimators_:
@@ -187,6 +203,8 @@ def run(ctx):
             seeds = list(range(nseeds)) if not slow else ([0, 2] if ctx.quick else [0, 1, 2, 3, 5, 7])
             if ctx.quick and entry["name"].startswith("boss_ensemble") and li == 2:
                 seeds = seeds + [1]     # two classes, unbalanced: members disagree and votes tie
+            if ctx.quick and entry["name"] == "cboss" and li in (1, 4):
+                seeds = seeds + [1, 3]     # three / four classes, the first with a single training instance
             for s in seeds:
                 if slow and ctx.quick and li in (3, 5):
                     continue
@@ -196,9 +214,10 @@ def run(ctx):
                 ntr = 14 if not unbalanced else 11
                 if entry["name"].startswith("stsf") and len(labels) >= 3 and s % 2 == 0:
                     ntr = 2 * len(labels)       # two instances per class: bootstrap samples regularly miss a class
-                cfg, obs = observe(entry, labels, seed, n_train=ntr, refit=refit, level=level)
+                rare = bool(entry["name"] == "cboss" and len(labels) >= 3 and s % 2 == 1)
+                cfg, obs = observe(entry, labels, seed, n_train=ntr, refit=refit, level=level, rare=rare)
                 ctx.evaluations += 1
-                sc = {"classifier": entry["name"], "labels": labels, "seed": seed, "n_train": ntr,
+                sc = {"classifier": entry["name"], "labels": labels, "seed": seed, "n_train": ntr, "rare": rare,
                       "refit": refit, "level": level}
                 if cfg is None:
                     if entry["name"] == "muse_chi2" and "Found array with 0 feature(s)" in obs["crash"] and \
@@ -255,7 +274,7 @@ def replay(ctx, doc):
     entry = [e for e in E.classifiers() + [{"name": "muse_chi2", "factory": lambda: MUSE(random_state=0)}]
              if e["name"] == sc["classifier"]][0]
     cfg, obs = observe(entry, sc["labels"], sc["seed"], sc.get("n_train", 14), refit=sc.get("refit", False),
-                       level=sc.get("level", 0.0))
+                       level=sc.get("level", 0.0), rare=sc.get("rare", False))
     print("observed:", canon(obs)[:1500])
     if cfg is None:
         print("VIOLATION property=C17 replay=%s" % ctx.replay)
